@@ -8,7 +8,7 @@ Ltac simp := cbn [fst snd pc prog fuse arg epoch handles rchange rgen rdata pend
                   cap dist0 dist1 dist2 cells igen gens datas change clock published oplog settled
                   set_pc set_fuse set_prog set_handles set_pend set_epoch set_snap set_ughost set_arg set_crash done abandon dirty orph dead
                   set_cells set_igen set_gens set_datas set_published set_settled tick complete
-                  in_rec add_slot busy refreshing scanned in_upd me fusable rec_true] in *.
+                  in_rec add_slot busy refreshing scanned in_upd me] in *.
 
 (* g' is g up to fields no invariant reads (igen, dist) and a later clock *)
 Record Same (g g' : cgst) : Prop := {
@@ -44,7 +44,7 @@ Qed.
 (* only the pc (and program / call argument) of the thread changes *)
 Lemma linv_pc g t l l' :
   LInv g t l ->
-  L0P l' -> epoch l' = epoch l ->
+  fuse l' = fuse l -> forallb crash_free_op (prog l') = true -> epoch l' = epoch l ->
   (forall j i, nth j (handles l') None = Some i -> nth j (handles l) None = Some i) ->
   rchange l' = rchange l -> rgen l' = rgen l -> rdata l' = rdata l -> (forall i gm, In (i, gm) (pend l') -> In (i, gm) (pend l) \/ (i < cap g /\ gm <= gens g i)) ->
   ustart l' = ustart l -> ulast l' = ulast l -> uprev l' = uprev l ->
@@ -59,9 +59,9 @@ Lemma linv_pc g t l l' :
   (in_upd (pc l') = false -> in_upd (pc l) = false) ->
   LInv g t l'.
 Proof.
-  intros [H0 H1 H2 H3 H4 H5 H6 H7 H8 H9 H10 H11] Ef Ee Eh Ec Eg Ed Epd Eu El Ev Hb Ha Hp Hr Hsc Hni.
-  constructor; unfold me; rewrite ?Ee, ?Ec, ?Eg, ?Ed, ?Eu, ?El, ?Ev.
-  - exact Ef.
+  intros [H0 H1 H2 H3 H4 H5 H6 H7 H8 H9 H10 H11] Ef Ep Ee Eh Ec Eg Ed Epd Eu El Ev Hb Ha Hp Hr Hsc Hni.
+  constructor; unfold me; rewrite ?Ef, ?Ee, ?Ec, ?Eg, ?Ed, ?Eu, ?El, ?Ev.
+  - destruct H0; auto.
   - exact H1.
   - exact H2.
   - intros i gm Hin. destruct (Epd i gm Hin) as [E|E]; auto.
@@ -80,38 +80,18 @@ Proof.
   - intros E. apply H11. auto.
 Qed.
 
-Lemma crash_ok_tl o p : crash_ok_prog (o :: p) = true -> crash_ok_prog p = true.
-Proof. cbn [crash_ok_prog]. intros H. apply andb_prop in H. tauto. Qed.
-Lemma crash_ok_fused o p : crash_ok_prog (o :: p) = true -> crash_free_op o = false -> next_rec p.
-Proof.
-  cbn [crash_ok_prog]. intros H Ho. rewrite Ho in H. apply andb_prop in H. destruct H as [H _].
-  destruct p as [|[| |[|]|] r]; try discriminate. exists r. reflexivity.
-Qed.
-Lemma crash_free_ok p : forallb crash_free_op p = true -> crash_ok_prog p = true.
-Proof. induction p as [|o p IH]; cbn; auto. intros H. apply andb_prop in H. destruct H as [-> H]. cbn. auto. Qed.
+Lemma crash_free_tl o p : forallb crash_free_op (o :: p) = true -> forallb crash_free_op p = true.
+Proof. cbn. intros H. apply andb_prop in H. tauto. Qed.
 
 (* only the remaining program changes *)
-Lemma linv_prog g t l p : LInv g t l -> L0P (set_prog l p) -> LInv g t (set_prog l p).
-Proof. intros [H0 H1 H2 H3 H4 H5 H6 H7 H8 H9 H10 H11] Hp. constructor; auto. Qed.
-
-(* L0P of the next local state from the one of the current state *)
-Ltac l0p :=
-  match goal with
-  | Hcf : crash_ok_prog (prog ?l) = true, Hd : dirty ?l = false, Hfz : fuse ?l <> None -> _ |- L0P _ =>
-    unfold L0P; try match goal with E : pc l = _ |- _ => rewrite ?E in * end;
-    cbn [pc prog fuse dirty set_pc set_fuse set_prog set_handles set_pend set_epoch set_snap set_ughost set_arg set_crash done];
-    split; [first [exact Hcf | eapply crash_ok_tl; eassumption]|split; [exact Hd|]];
-    let Hz := fresh "Hz" in intros Hz;
-    first [ exfalso; apply Hz; reflexivity
-          | let Hb := fresh "Hb" in let Hn := fresh "Hn" in destruct (Hfz Hz) as [Hb Hn];
-            first [split; [reflexivity|exact Hn] | cbn in Hb; discriminate] ]
-  end.
+Lemma linv_prog g t l p : LInv g t l -> forallb crash_free_op p = true -> LInv g t (set_prog l p).
+Proof. intros [[H0 H0'] H1 H2 H3 H4 H5 H6 H7 H8 H9 H10 H11] Hp. constructor; auto. Qed.
 
 Ltac side :=
   try match goal with E : pc ?l = _ |- _ => rewrite ?E end;
   simp;
   try reflexivity; try assumption; try discriminate; try (symmetry; assumption);
-  try l0p;
+  try (eapply crash_free_tl; eassumption);
   try (intros; discriminate);
   try (intros _; split; [reflexivity|intros ? ? ? ?; first [assumption|discriminate]]);
   try (intros ? ? ?; left; assumption);
@@ -137,7 +117,7 @@ Ltac pcmove HL HGI g g' :=
 (* the running call returns: pc Idle, no pending entries *)
 Lemma linv_done g t l l' :
   LInv g t l ->
-  pc l' = Idle -> L0P l' -> epoch l' = epoch l ->
+  pc l' = Idle -> fuse l' = None -> forallb crash_free_op (prog l') = true -> epoch l' = epoch l ->
   rchange l' = rchange l -> rgen l' = rgen l -> rdata l' = rdata l -> pend l' = [] -> ustart l' = ustart l ->
   (forall j i, nth j (handles l') None = Some i ->
      i < cap g /\ cells g i = owner_of t (epoch l) /\ forall j', nth j' (handles l') None = Some i -> j' = j) ->
@@ -147,9 +127,9 @@ Lemma linv_done g t l l' :
   (ulast l' = false -> forall i, uprev l' i = rgen l i) ->
   LInv g t l'.
 Proof.
-  intros [H0 H1 H2 H3 H4 H5 H6 H7 H8 H9 H10 H11] Epc Ef Ee Ec Eg Ed Epd Eu Hh Ha Hr Hsc Hu.
-  constructor; unfold me, PcInv; rewrite ?Epc, ?Ee, ?Ec, ?Eg, ?Ed, ?Epd, ?Eu; simp.
-  - exact Ef.
+  intros [H0 H1 H2 H3 H4 H5 H6 H7 H8 H9 H10 H11] Epc Ef Ep Ee Ec Eg Ed Epd Eu Hh Ha Hr Hsc Hu.
+  constructor; unfold me, PcInv; rewrite ?Epc, ?Ef, ?Ee, ?Ec, ?Eg, ?Ed, ?Epd, ?Eu; simp.
+  - auto.
   - exact H1.
   - exact H2.
   - intros i gm [].
@@ -243,29 +223,26 @@ Section Step.
   Hypothesis HGI : GInv g.
   Hypothesis HL : LInv g t l.
 
+  Lemma step_is_acc : step t g l = step_acc t g l.
+  Proof. unfold step. destruct (L0 _ _ _ HL) as [-> _]. reflexivity. Qed.
+
   Definition Goal3 (r : option (cgst * clst * list ev)) : Prop :=
     match r with Some (g', l', _) => Guar t g g' /\ LInv g' t l' /\ GInv g' | None => True end.
 
   Lemma step_ok : Goal3 (step_acc t g l).
   Proof.
-    pose proof HL as [(Hcf & Hd & Hfz) H1 H2 H3 H4 H5 H6 H7 H8 H9 H10 H11]. unfold PcInv in H7.
+    pose proof HL as [[Hf Hcf] H1 H2 H3 H4 H5 H6 H7 H8 H9 H10 H11]. unfold PcInv in H7.
     unfold step_acc, Goal3.
     destruct (pc l) eqn:Epc.
     - (* Idle *)
       destruct (prog l) as [|o p] eqn:Eprog; [exact I|].
-      pose proof (crash_ok_tl _ _ Hcf) as Hcf'.
-      assert (Hfn : fuse l = None).
-      { destruct (fuse l) eqn:Ef; auto. destruct Hfz as [Hb _]; [discriminate|]. cbn in Hb. discriminate. }
-      assert (HP0 : forall l0, prog l0 = p -> dirty l0 = false -> fuse l0 = None -> L0P l0).
-      { intros l0 E1 E2 E3. unfold L0P. rewrite E1, E2, E3. repeat split; auto. intros Hz. exfalso. apply Hz. reflexivity. }
+      pose proof (crash_free_tl _ _ Hcf) as Hcf'.
       destruct o as [v fz|j fz|pr|].
       + (* add *)
-        destruct fz as [[|k]|]; simp.
-        * split; [apply same_guar, same_tick|]. split; [|apply (same_ginv g _ (same_tick g) HGI)].
-          apply (same_linv g _ _ _ (same_tick g)). apply linv_prog; auto.
-        * pcmove HL HGI g (tick g). unfold L0P. simp. repeat split; auto. eapply crash_ok_fused; eauto.
-        * pcmove HL HGI g (tick g). apply HP0; auto.
+        destruct fz as [k|]; [cbn in Hcf; discriminate|]. simp.
+        pcmove HL HGI g (tick g).
       + (* remove *)
+        destruct fz as [k|]; [cbn in Hcf; discriminate|].
         destruct (nth j (handles l) None) as [i|] eqn:Ej.
         * assert (Hjl : (j < length (handles l))%nat).
           { destruct (Nat.ltb_spec j (length (handles l))); auto. rewrite nth_overflow in Ej by lia. discriminate. }
@@ -274,27 +251,23 @@ Section Step.
             - rewrite nth_upd_same by auto. discriminate.
             - rewrite nth_upd_other by auto. auto. }
           destruct (H4 eq_refl j i Ej) as (A & B & C & D).
-          destruct fz as [[|k]|]; simp; pcmove HL HGI g (tick g).
-          all: try (apply HP0; auto).
-          all: try (intros j' i' Hj'; apply Hsub; auto).
-          all: try (unfold L0P; simp; repeat split; auto; eapply crash_ok_fused; eauto).
-          all: try (intros _; split; auto; intros j' i' Hj' E; inversion E; subst i'; destruct (Hsub _ _ Hj') as [Hj'' Hne]; exfalso; apply Hne; apply D; auto).
-          all: try (unfold PcInv; simp; auto).
+          pcmove HL HGI g (tick g).
+          -- intros j' i' Hj'. apply Hsub; auto.
+          -- intros _. split; auto. intros j' i' Hj' E. inversion E; subst i'. destruct (Hsub _ _ Hj') as [Hj'' Hne]. exfalso. apply Hne. apply D. auto.
+          -- unfold PcInv. simp. auto.
         * split; [apply same_guar, same_refl|]. split; [|exact HGI]. apply linv_prog; auto.
       + (* recover *)
-        pcmove HL HGI g (tick g). apply HP0; auto.
+        destruct (N.eqb_spec (igen g) MAX64); pcmove HL HGI g (tick g).
       + (* update *)
         destruct HGI as [GA' GB' GC' GD' GE'].
         destruct (N.eqb_spec (rchange l) (change g)) as [Ec|Ec].
         * split; [apply same_guar; constructor; simp; auto; lia|]. split; [|apply (same_ginv g); [constructor; simp; auto; lia|constructor; auto]].
           constructor; unfold PcInv; simp; rewrite ?Epc; simp; auto; try lia.
           all: try solve [intros i gm c e Hin He; destruct (GD' _ _ _ _ Hin) as (_ & _ & ? & _); lia].
-          all: try (apply HP0; auto).
         * split; [apply same_guar, same_tick|]. split; [|apply (same_ginv g _ (same_tick g)); constructor; auto].
           constructor; unfold PcInv; simp; rewrite ?Epc; simp; auto; try lia.
           all: try solve [intros; discriminate].
           all: try solve [intros i gm c e Hin He; destruct (GD' _ _ _ _ Hin) as (_ & _ & ? & _); lia].
-          all: try (apply HP0; auto).
     - (* AddLoadIgen *)
       unfold add_next. destruct (N.ltb_spec 0 (cap g)); pcmove HL HGI g g.
     - (* AddScan *)
